@@ -220,8 +220,11 @@ struct Kind {
     uses: &'static [&'static str],
 }
 
+/// kinds of the main exhaustive enumeration
 const K: usize = 18;
-static KINDS: [Kind; K] = [
+/// all kinds (the rest fail at their very first token, before any node event)
+const K_ALL: usize = 26;
+static KINDS: [Kind; K_ALL] = [
     Kind { name: "valid-block", nature: Nature::Plain, defines: &[], uses: &[] },
     Kind { name: "valid-flow", nature: Nature::Plain, defines: &[], uses: &[] },
     Kind { name: "valid-nested", nature: Nature::Plain, defines: &[], uses: &[] },
@@ -240,7 +243,17 @@ static KINDS: [Kind; K] = [
     Kind { name: "type-error-in-replay", nature: Nature::Plain, defines: &["y"], uses: &[] },
     Kind { name: "root-int", nature: Nature::Plain, defines: &[], uses: &[] },
     Kind { name: "type-error-peeked-unit", nature: Nature::Plain, defines: &[], uses: &[] },
+    // documents that fail before producing any node
+    Kind { name: "root-unterminated-dquote", nature: Nature::Syntax, defines: &[], uses: &[] },
+    Kind { name: "root-reserved-indicator", nature: Nature::Syntax, defines: &[], uses: &[] },
+    Kind { name: "root-unterminated-flow", nature: Nature::Syntax, defines: &[], uses: &[] },
+    Kind { name: "root-undefined-alias", nature: Nature::Alias, defines: &[], uses: &["nope"] },
+    Kind { name: "flow-unterminated-dquote", nature: Nature::Syntax, defines: &[], uses: &[] },
+    Kind { name: "flow-reserved-indicator", nature: Nature::Syntax, defines: &[], uses: &[] },
+    Kind { name: "flow-nested-unterminated", nature: Nature::Syntax, defines: &[], uses: &[] },
+    Kind { name: "flow-undefined-alias", nature: Nature::Alias, defines: &[], uses: &["nope"] },
 ];
+const FAIL_FIRST: std::ops::Range<usize> = K..K_ALL;
 
 /// Body text of a document of `kind` with the four numbers `v` (all >= 0).
 fn body(kind: usize, v: [u32; 4]) -> String {
@@ -264,6 +277,14 @@ fn body(kind: usize, v: [u32; 4]) -> String {
         15 => format!("a: {v0}\nl: &y [{v1}, {v2}]\nm: *y\nz: {v3}\n"),
         16 => format!("{v0}\n"),
         17 => format!("a: {v0}\nu: {v1}\nl: [{v2}]\nz: {v3}\n"),
+        18 => format!("\"abc{v0}\n"),
+        19 => format!("@foo{v0}\n"),
+        20 => format!("[{v0}, {v1}\n"),
+        21 => "*nope\n".to_string(),
+        22 => format!("[\"abc{v0}\n"),
+        23 => format!("{{a: @foo{v0}}}\n"),
+        24 => format!("{{a: [{v0}, {v1}\n"),
+        25 => "[*nope]\n".to_string(),
         _ => unreachable!(),
     }
 }
@@ -275,7 +296,7 @@ fn pos_vals(pos: usize) -> [u32; 4] {
 
 /// Alias-free variant with the same line structure (for confirming the cut).
 fn skeleton(body: &str) -> String {
-    body.replace("*x", "00").replace("*y", "00")
+    body.replace("*x", "00").replace("*y", "00").replace("*nope", "00000")
 }
 
 // ------------------------------------------------------------------ stream composition
@@ -296,7 +317,7 @@ fn breaks(s: String, crlf: bool) -> String {
     if crlf { s.replace('\n', "\r\n") } else { s }
 }
 
-const N_SEPS: u8 = 6;
+const N_SEPS: u8 = 7;
 const N_TRAILERS: u8 = 4;
 
 fn compose(bodies: &[String], seps: &[u8], trailer: u8) -> String {
@@ -329,11 +350,19 @@ fn compose(bodies: &[String], seps: &[u8], trailer: u8) -> String {
                     s.push_str("---\n");
                 }
             }
-            _ => {
+            5 => {
                 if !first {
                     s.push('\n');
                 }
                 s.push_str("---\n");
+            }
+            _ => {
+                // content on the marker line (single-line bodies only)
+                if !b.is_empty() && !b.starts_with('#') && b.matches('\n').count() == 1 && b.ends_with('\n') {
+                    s.push_str("--- ");
+                } else {
+                    s.push_str("---\n");
+                }
             }
         }
         s.push_str(b);
@@ -377,7 +406,7 @@ impl Stream {
         let bodies: Vec<String> = v["bodies"].as_array()?.iter().map(|x| x.as_str().unwrap_or("").to_string()).collect();
         let seps: Vec<u8> = v["seps"].as_array()?.iter().map(|x| x.as_u64().unwrap_or(0) as u8).collect();
         let trailer = v["trailer"].as_u64()? as u8;
-        if kinds.len() != bodies.len() || kinds.len() != seps.len() || kinds.iter().any(|k| *k >= K) {
+        if kinds.len() != bodies.len() || kinds.len() != seps.len() || kinds.iter().any(|k| *k >= K_ALL) {
             return None;
         }
         let s = Stream::new(kinds, bodies, seps, trailer, v["crlf"].as_bool().unwrap_or(false));
@@ -448,7 +477,8 @@ fn confirm(st: &Stream) -> Result<Confirmed, &'static str> {
             if err.is_none() {
                 return Err("cut not confirmed: syntax-error document parsed cleanly");
             }
-            if docs.len() != f + 1 {
+            // (a failing implicit first document may fail before its DocumentStart is reported)
+            if docs.len() != f + 1 && !(f == 0 && docs.is_empty()) {
                 return Err("cut not confirmed: DocumentStart count before the scan error differs");
             }
         }
@@ -486,7 +516,7 @@ fn confirm(st: &Stream) -> Result<Confirmed, &'static str> {
     let rdocs = docs_of(&revs);
     match predicted {
         Some(p) => {
-            if rerr.is_none() || rdocs.len() != p + 1 {
+            if rerr.is_none() || (rdocs.len() != p + 1 && !(p == 0 && rdocs.is_empty())) {
                 return Err("cut not confirmed: raw parser does not fail in the predicted document");
             }
         }
@@ -948,9 +978,9 @@ fn random_stream(rng: &mut Rng) -> Stream {
     for _ in 0..n {
         let r = rng.below(100);
         let k = if r < fatal_pct {
-            *rng.pick(&[9usize, 10])
+            *rng.pick(&[9usize, 10, 18, 19, 20, 22, 23, 24])
         } else if r < fatal_pct + alias_pct {
-            *rng.pick(&[6usize, 12])
+            *rng.pick(&[6usize, 6, 12, 12, 21, 25])
         } else {
             *rng.pick(&[0usize, 0, 1, 2, 2, 3, 4, 5, 5, 7, 7, 8, 8, 11, 13, 13, 14, 15, 16, 17, 17])
         };
@@ -1034,7 +1064,7 @@ fn main() {
     let mut alone_tab: Vec<Vec<Vec<Out>>> = Vec::new(); // [target][kind][pos]
     for t in TARGETS.iter() {
         let mut per_kind = Vec::new();
-        for k in 0..K {
+        for k in 0..K_ALL {
             let mut per_pos = Vec::new();
             for pos in 0..max_len {
                 run.eval();
@@ -1106,6 +1136,48 @@ fn main() {
         run.count_map(&lc.c);
     });
 
+    // ---- exhaustive: documents that fail at their first token, as first and as non-first document:
+    //      every prefix of length 0..=2 over the 18 base kinds x 8 failing kinds x 7 marker layouts x {no, one} following document
+    let mut prefixes: Vec<Vec<usize>> = vec![vec![]];
+    for a in 0..K {
+        prefixes.push(vec![a]);
+        for b in 0..K {
+            prefixes.push(vec![a, b]);
+        }
+    }
+    let n_fail = FAIL_FIRST.len();
+    let fam_total = prefixes.len() * n_fail * N_SEPS as usize * 2;
+    run.count("first_token_failure_streams_planned", fam_total as u64);
+    par_range(fam_total, |idx| {
+        let with_suffix = idx % 2 == 1;
+        let sep = ((idx / 2) % N_SEPS as usize) as u8;
+        let fk = FAIL_FIRST.start + (idx / 2 / N_SEPS as usize) % n_fail;
+        let prefix = &prefixes[idx / 2 / N_SEPS as usize / n_fail];
+        let mut seq = prefix.clone();
+        seq.push(fk);
+        if with_suffix {
+            seq.push(0);
+        }
+        let n = seq.len();
+        let bodies: Vec<String> = seq.iter().enumerate().map(|(i, k)| body(*k, pos_vals(i))).collect();
+        let mut seps = vec![if sep == 4 { 0 } else { sep }; n];
+        if sep == 4 {
+            seps[0] = 4;
+        }
+        let st = Stream::new(seq.clone(), bodies, seps, 0, false);
+        let mut lc = Local::new();
+        lc.add("first_token_failure_streams", 1);
+        let chunk = [1usize, 3, 7, 64, 4096][idx % 5];
+        for (ti, t) in TARGETS.iter().enumerate() {
+            let alone: Vec<Out> = seq.iter().enumerate().map(|(i, k)| alone_tab[ti][*k][i].clone()).collect();
+            check_stream(&run, &mut lc, &st, t, &alone, chunk, &Plan2 { which_singles: all_singles, trace_hooks: false });
+        }
+        if idx % 9973 == 0 {
+            run.sample(|| json!({"text": st.text, "kinds": st.kinds.iter().map(|k| KINDS[*k].name).collect::<Vec<_>>()}));
+        }
+        run.count_map(&lc.c);
+    });
+
     // ---- random longer streams (2..=40 documents), fresh numbers in every document
     let n_random = tier.pick(20_000usize, 100_000usize);
     par_range(n_random, |i| {
@@ -1129,8 +1201,10 @@ fn main() {
     });
 
     let scope = format!(
-        "every sequence of length 1..={max_len} over {K} document kinds ({}) x 3 separator layouts (`---` | `...`+`---`+final `...` | implicit first document + comment lines + `--- # comment`) x 4 targets (derived struct Doc, untyped Val, i64, RcAnchor struct) x entry points from_multiple, from_slice_multiple, read, read_with_options and the six single-document entry points (all six for length <= 3, two rotating for longer)",
-        KINDS.iter().map(|k| k.name).collect::<Vec<_>>().join(", ")
+        "every sequence of length 1..={max_len} over {K} document kinds ({}) x 3 separator layouts (`---` | `...`+`---`+final `...` | implicit first document + comment lines + `--- # comment`) x 4 targets (derived struct Doc, untyped Val, i64, RcAnchor struct) x entry points from_multiple, from_slice_multiple, read, read_with_options and the six single-document entry points (all six for length <= 3, two rotating for longer); plus every prefix of length 0..=2 over those kinds followed by one of {} kinds that fail at their first token ({}) x 7 marker layouts (incl. content on the `--- ` line) x {{no, one}} following document, all entry points",
+        KINDS[..K].iter().map(|k| k.name).collect::<Vec<_>>().join(", "),
+        FAIL_FIRST.len(),
+        KINDS[K..].iter().map(|k| k.name).collect::<Vec<_>>().join(", ")
     );
     let fin = Finish::new(
         "a case (stream text, target) is non-trivial when the stream has >= 2 documents and its cut was confirmed by the raw parser's DocumentStart count and per-document event shapes; distinct by hash(text, target)",
